@@ -203,12 +203,17 @@ def mk_polygon_line(poly, with_segment=False, anchor=None):
     return case
 
 
-def mk_polygon3d_line(poly, emb):
+def mk_polygon3d_line(poly, emb, moved=None):
     def case(ctx):
         from geometer import Polygon, Point, Line
         o, u, v, nrm = emb
         V3 = [[float(o[i] + x * u[i] + y * v[i]) for i in range(3)] + [1.0] for x, y in poly]
         P = Polygon(*[Point(*w[:3]) for w in V3])
+        if moved is not None:
+            # the polygon under test is the image of P under a translation (its supporting plane moves with it)
+            from geometer import translation
+            P = translation(*[float(x) for x in moved]) * P
+            o = tuple(o[i] + moved[i] for i in range(3))
         # line through a free point of the polygon's plane (parameters s, t) and a free point off it
         s, t = ctx.real("s"), ctx.real("t")
         inpl = [o[i] + s * u[i] + t * v[i] for i in range(3)] + [1]
@@ -289,5 +294,6 @@ def cases(tier, seed):
     for j, emb in enumerate(embeds):
         for i, poly in enumerate(polys[:2]):
             add(f"polygon3d_line_e{j}_{i}", mk_polygon3d_line(poly, emb), tiers=Q, max_paths=1500)
+    add("polygon3d_line_translated", mk_polygon3d_line(polys[0], embeds[1], moved=(1, -2, 3)), tiers=Q, max_paths=1500)
     add("cube_line", case_cube_line, tiers=Q, max_paths=4000)
     return cs
